@@ -461,6 +461,59 @@ def scheduler(run):
           run.violation(dict(clause="scheduler", part="step", hook=hook, freq_type=freq_type), detail, rep)
         else:
           run.inconclusive_("scheduler counterexample does not reproduce: %s" % detail)
+  # 3a. get_quantizers on stand-in layers whose quantizers hold a *symbolic* current factor: every quantizer that has the knob is
+  #     returned whatever value the knob currently holds (0 included), quantizers without the knob and None entries are not
+  fq = [z3.Real("held_factor_%d" % i) for i in range(3)]
+  base3 = [z3.And(v >= 0, v <= 1) for v in fq]
+
+  class _Q(object):
+    pass
+
+  def stand_in_model():
+    qs = []
+    for v in fq:
+      q_ = _Q()
+      q_.qnoise_factor = SymReal(v)
+      qs.append(q_)
+    plain = _Q()                                   # a quantizer without the knob
+    l1, l2, l3 = _Q(), _Q(), _Q()
+    l1.quantizers = [qs[0], None, plain]
+    l2.quantizer = qs[1]
+    l3.quantizers = [qs[2]]
+    l3.quantizer = None
+    m_ = _Q()
+    m_.layers = [l1, l2, l3, _Q()]
+    return m_, qs
+
+  def fn3():
+    m_, qs = stand_in_model()
+    s_ = cb.QNoiseScheduler(0, 4)
+    got = s_.get_quantizers(m_)
+    return [any(g is q_ for g in got) for q_ in qs], len(got)
+  with pysym.shadow(cb):
+    paths3, limits3 = pysym.explore(fn3, base=base3)
+  for pc, why in limits3:
+    run.inconclusive_("path limit in get_quantizers: %s" % why)
+  for pi, (pc, (present, n_got), facts) in enumerate(paths3):
+    bad = z3.BoolVal(not (all(present) and n_got == 3))
+    v, mdl = harness.z3_query(run, "sched_get_quantizers_p%d" % pi, list(pc), [bad], dict(clause="scheduler", part="get_quantizers_symbolic"))
+    if mdl is not None:
+      # replay on real quantizer objects holding the solver's factors
+      from qkeras import quantized_bits
+      import tensorflow.keras as keras
+      from fractions import Fraction
+      vals = [float(Fraction(*mdl["held_factor_%d" % i])) if isinstance(mdl.get("held_factor_%d" % i), list) else float(mdl.get("held_factor_%d" % i, 1.0)) for i in range(3)]
+      rq = [quantized_bits(4, 0, 1, qnoise_factor=v_) for v_ in vals]
+      l1, l2, l3 = _Q(), _Q(), _Q()
+      l1.quantizers, l2.quantizer, l3.quantizers = [rq[0], None], rq[1], [rq[2]]
+      mm = _Q()
+      mm.layers = [l1, l2, l3]
+      got = cb.QNoiseScheduler(0, 4).get_quantizers(mm)
+      if len(got) != 3:
+        run.violation(dict(clause="scheduler", part="get_quantizers"), dict(held_factors=vals, returned=len(got), expected=3),
+                      dict(clause="scheduler", cls="", kw={}, part="get_quantizers"))
+      else:
+        run.inconclusive_("get_quantizers counterexample does not reproduce on real quantizers: %s" % vals)
   # 3. get_quantizers on real layers (auxiliary, concrete): every quantizer with the knob is returned
   try:
     import tensorflow as tf
@@ -551,7 +604,8 @@ def run(tier, seed):
               "(the input itself) and f=1 (the constant-factor quantizer) per element; the general mixing clause is not decided for it",
               "scheduler: start <= finish <= 10^6, exponent > 0 real, update_freq 1..8, num_iters/initial <= 10^6 - all symbolic; one inductive "
               "step from the invariant 'every quantizer holds calculate(g) for an earlier step g'",
-              "get_quantizers() over real layer objects is executed concretely on one model (auxiliary, not a solver result)"]
+              "get_quantizers(): stand-in layers whose three quantizers hold symbolic current factors in [0,1] (every feasible path: all three are "
+              "returned, the knob-less quantizer and None entries are not); additionally executed concretely on one real model (auxiliary)"]
   r.assumptions = ["np.power(v, e) for v in [0,1], e > 0: contract stub (fixes 0 and 1, stays in [0,1], strictly increasing in v)",
                    "platform model / Log / Pow stubs as in C01 and C03"]
   return r.finish("Quantizers are traced in variable-backed mode so that qnoise_factor is a symbolic graph input f; the solver decides for all "
